@@ -90,7 +90,7 @@ InitNode(n) ==
      cfgC |-> EmptyCfg, cfgL |-> IF member THEN InitCfg ELSE EmptyCfg,
      aborted |-> FALSE, votesNeeded |-> 0, selfVote |-> FALSE, cndTransfer |-> FALSE,
      fsmIdx |-> 0, fsmTerm |-> 0, fsmCmds |-> << >>, fsmQ |-> << >>,
-     ldr |-> NoLdr, outbox |-> {}, done |-> << >>, closed |-> FALSE]
+     ldr |-> NoLdr, outbox |-> {}, done |-> << >>, closed |-> FALSE, acts |-> {}]
 
 --------------------------------------------------------------------------
 (* storage.go / value.go                                                   *)
@@ -114,7 +114,12 @@ CommitLog(s) == [s EXCEPT !.synced = Last(s)]
 IsCommitted(s) == s.cfgL.index = s.cfgC.index
 ForgetLeaderIfNotVoter(s, cfg) ==
     IF s.leader # None /\ ~IsVoter(cfg, s.leader) THEN [s EXCEPT !.leader = None] ELSE s
-ChangeConfig(s, cfg) == [ForgetLeaderIfNotVoter(s, cfg) EXCEPT !.cfgC = s.cfgL, !.cfgL = cfg]
+\* (tracer.configChanged on a node in state Leader is recorded in `acts`: the instant a leader introduces a configuration)
+ChangeConfig(s, cfg) ==
+    [ForgetLeaderIfNotVoter(s, cfg) EXCEPT !.cfgC = s.cfgL, !.cfgL = cfg,
+        !.acts = IF s.state = "L" /\ s.ldr.on
+                 THEN @ \cup {[kind |-> "cfgChanged", n |-> s.id, index |-> cfg.index, prev |-> s.cfgL.index, commit |-> s.commit, start |-> s.ldr.start]}
+                 ELSE @]
 CommitConfig(s) == [ForgetLeaderIfNotVoter(s, s.cfgL) EXCEPT !.cfgC = s.cfgL]
 RevertConfig(s) == [s EXCEPT !.cfgL = s.cfgC]
 
@@ -126,7 +131,10 @@ SetCommitIndexR(s, idx) ==
              s3 == IF s2.state = "L" /\ ~IsVoter(s2.cfgL, s2.id) /\ G_StepDownWhenDemoted
                    THEN [s2 EXCEPT !.state = "F", !.leader = None] ELSE s2
              \* ShutdownOnRemove: the node closes itself once its removal is committed
-             s4 == IF s3.id \notin DOMAIN s3.cfgL.nodes THEN [s3 EXCEPT !.closed = TRUE] ELSE s3
+             s4 == IF s3.id \notin DOMAIN s3.cfgL.nodes
+                   THEN [s3 EXCEPT !.closed = TRUE,
+                                   !.acts = @ \cup {[kind |-> "stopped", n |-> s3.id, commit |-> s3.commit, cfgIndex |-> s3.cfgL.index, member |-> FALSE]}]
+                   ELSE s3
          IN s4
     ELSE s1
 
@@ -161,7 +169,11 @@ AllOrds == Perms(Node)
 CanonOrd == CHOOSE q \in AllOrds : TRUE
 HasActions(nodes) == \E i \in DOMAIN nodes : nodes[i].action # "none"
 
-NoRound == [on |-> FALSE, ord |-> 0, last |-> 0, done |-> FALSE]
+\* changeconfig.go round: begin() bumps the ordinal and the start time but does NOT clear End, so a round that
+\* finished once stays "finished" for ever and its Duration() (End - Start) is negative afterwards (stale = TRUE):
+\* only the FIRST round of a promotion is ever measured against PromoteThreshold.
+NoRound == [on |-> FALSE, ord |-> 0, last |-> 0, done |-> FALSE, stale |-> FALSE]
+BeginRound(r, last) == [on |-> TRUE, ord |-> Min(r.ord + 1, MaxRoundOrd), last |-> last, done |-> r.done, stale |-> r.done]
 
 NewRepl(s, j) ==
     [next |-> Last(s) + 1, rmatch |-> 0, match |-> 0, noContact |-> FALSE,
@@ -210,7 +222,7 @@ Without(nodes, j) == [i \in (DOMAIN nodes) \ {j} |-> nodes[i]]
 BeginFinishedRounds(s) ==
     [s EXCEPT !.ldr.repl = [j \in DOMAIN s.ldr.repl |->
         LET r == s.ldr.repl[j].round IN
-        IF r.on /\ r.done THEN [s.ldr.repl[j] EXCEPT !.round = [on |-> TRUE, ord |-> Min(r.ord + 1, MaxRoundOrd), last |-> Last(s), done |-> FALSE]]
+        IF r.on /\ r.done THEN [s.ldr.repl[j] EXCEPT !.round = BeginRound(r, Last(s))]
         ELSE s.ldr.repl[j]]]
 
 RECURSIVE StoreEntryL(_, _), LeaderChangeConfig(_, _), CheckConfigActions(_, _, _), CheckFollowers(_, _, _, _),
@@ -263,32 +275,37 @@ CheckConfigAction(s, nodes, j, task) ==
     ELSE
     LET n == nodes[j]
         action == NextAction(n)
-        Perform(sx) ==
-            IF ~CanChangeConfig(sx) THEN sx
+        Note(sx) == [sx EXCEPT !.acts = @ \cup {[kind |-> "action", n |-> sx.id, id |-> j, action |-> action,
+                                                    match |-> sx.ldr.repl[j].match, rdone |-> sx.ldr.repl[j].round.done,
+                                                    rlast |-> sx.ldr.repl[j].round.last, last |-> Last(sx)]}]
+        Perform(sy) ==
+            LET sx == Note(sy) IN
+            IF ~CanChangeConfig(sy) THEN sy
             ELSE IF action = "promote" THEN DoChangeConfig(sx, [nodes EXCEPT ![j] = [voter |-> TRUE, action |-> "none"]], task)
             ELSE IF action = "remove"
-                 THEN (IF sx.ldr.repl[j].match >= sx.cfgL.index THEN DoChangeConfig(sx, Without(nodes, j), task) ELSE sx)
+                 THEN (IF sx.ldr.repl[j].match >= sx.cfgL.index THEN DoChangeConfig(sx, Without(nodes, j), task) ELSE sy)
             ELSE IF action = "forceRemove" THEN DoChangeConfig(sx, Without(nodes, j), task)
             ELSE DoChangeConfig(sx, [nodes EXCEPT ![j] = [voter |-> FALSE, action |-> IF n.action = "demote" THEN "none" ELSE n.action]], task)
     IN IF action = "none" THEN s
        ELSE LET r0 == s.ldr.repl[j].round
                 s1 == IF action # "promote" THEN [s EXCEPT !.ldr.repl[j].round = NoRound]
-                      ELSE IF ~r0.on THEN [s EXCEPT !.ldr.repl[j].round = [on |-> TRUE, ord |-> 1, last |-> Last(s), done |-> FALSE]]
+                      ELSE IF ~r0.on THEN [s EXCEPT !.ldr.repl[j].round = BeginRound(NoRound, Last(s))]
                       ELSE s
                 r1 == s1.ldr.repl[j].round
             IN IF r1.on /\ G_PromoteAfterRound
-               THEN LET r2 == IF ~r1.done /\ s1.ldr.repl[j].match >= r1.last THEN [r1 EXCEPT !.done = TRUE] ELSE r1
+               THEN LET r2 == IF ~r1.done /\ s1.ldr.repl[j].match >= r1.last THEN [r1 EXCEPT !.done = TRUE, !.stale = FALSE] ELSE r1
                         s2 == [s1 EXCEPT !.ldr.repl[j].round = r2]
                     IN IF ~r2.done THEN s2
-                       ELSE IF Last(s2) > s2.ldr.repl[j].match /\ ~rfc
-                       THEN [s2 EXCEPT !.ldr.repl[j].round = [on |-> TRUE, ord |-> Min(r2.ord + 1, MaxRoundOrd), last |-> Last(s2), done |-> FALSE]]
+                       ELSE IF Last(s2) > s2.ldr.repl[j].match /\ ~rfc /\ ~r2.stale
+                       THEN [s2 EXCEPT !.ldr.repl[j].round = BeginRound(r2, Last(s2))]
                        ELSE Perform(s2)
                ELSE Perform(s1)
 
 \* config.go leader.setCommitIndex: flush, advance, config bookkeeping
 \* (CommitN flushes the whole last segment: everything appended so far becomes durable)
 SetCommitIndexL(s, idx) ==
-    LET s1 == IF G_LeaderFlush THEN CommitLog(s) ELSE s
+    LET s0 == IF G_LeaderFlush THEN CommitLog(s) ELSE s
+        s1 == [s0 EXCEPT !.acts = @ \cup {[kind |-> "commit", n |-> s.id, index |-> idx, voters |-> Voters(s.cfgL.nodes)]}]
         committedNow == ~IsCommitted(s1) /\ s1.cfgL.index <= idx
         s2 == SetCommitIndexR(s1, idx)
     IN IF committedNow /\ ~IsStableCfg(s2.cfgL) THEN CheckConfigActions(s2, s2.cfgL.nodes, 0) ELSE s2
@@ -511,24 +528,35 @@ AppendReqMsg(s, j, withEntries) ==
 Up(n) == node[n].up /\ node[n].died = ""
 
 \* flush a node's outbox into the network, its done-list into the event, and (eager) its FSM queue
-Settle(ns) == [n \in Node |-> LET s == IF EagerFsm THEN FsmDrain(ns[n]) ELSE ns[n]
-                              IN [s EXCEPT !.outbox = {}, !.done = << >>]]
-Outs(ns)   == UNION {ns[n].outbox : n \in Node}
-\* requests written on connections whose replication no longer exists (leader stepped down)
-Abandoned(before, after) ==
-    UNION {UNION {{[from |-> i, to |-> j, req |-> before[i].ldr.repl[j].reqs[k]] : k \in 1..Len(before[i].ldr.repl[j].reqs)}
-                  : j \in {x \in DOMAIN before[i].ldr.repl : after[i].up /\ (~after[i].ldr.on \/ x \notin DOMAIN after[i].ldr.repl)}}
-           : i \in {x \in Node : before[x].ldr.on}}
+SettleNode(s0) == LET s == IF EagerFsm THEN FsmDrain(s0) ELSE s0
+                  IN [s EXCEPT !.outbox = {}, !.done = << >>, !.acts = {}]
+\* requests written on connections whose replication no longer exists (leader stepped down, follower removed).
+\* orph is a SEQUENCE (a bag would do): two abandoned connections may carry identical requests.
+RECURSIVE SetToSeq(_)
+SetToSeq(S) == IF S = {} THEN << >> ELSE LET x == CHOOSE y \in S : TRUE IN <<x>> \o SetToSeq(S \ {x})
+ReqsOf(s, i, j) == [k \in 1..Len(s.ldr.repl[j].reqs) |-> [from |-> i, to |-> j, req |-> s.ldr.repl[j].reqs[k]]]
+RECURSIVE Concat(_, _)
+Concat(f, q) == IF q = << >> THEN << >> ELSE f[Head(q)] \o Concat(f, Tail(q))
+Abandoned(before, after, T) ==
+    LET pairs == {<<i, j>> \in T \X Node : before[i].ldr.on /\ j \in DOMAIN before[i].ldr.repl /\ before[i].ldr.repl[j].reqs # << >>
+                                          /\ after[i].up /\ (~after[i].ldr.on \/ j \notin DOMAIN after[i].ldr.repl)}
+    IN Concat([p \in pairs |-> ReqsOf(before[p[1]], p[1], p[2])], SetToSeq(pairs))
 
-Commit(ns, newRpcs, newOrph, e) ==
-    LET ns1 == Settle(ns) IN
+\* every action ends here. T = the nodes this step touched (all others are exactly as the previous step left them)
+Commit(ns0, newRpcs, newOrph, e) ==
+    \E ns \in {ns0} :   \* (forces the handler result to be evaluated exactly once)
+    LET T    == {n \in Node : ns[n] # node[n]}
+        ns1  == [n \in Node |-> IF n \in T THEN SettleNode(ns[n]) ELSE ns[n]]
+        acts == UNION {ns[n].acts : n \in T}
+        e1   == e @@ [rf |-> rfc, acts |-> acts]
+    IN
     /\ node' = ns1
-    /\ rpcs' = newRpcs \cup Outs(ns)
-    /\ orph' = (IF Orphans THEN newOrph \cup Abandoned(node, ns1) ELSE newOrph)
-    /\ gh' = GhostStep(gh, node, ns1, e)
-    /\ ev' = e @@ [rf |-> rfc]
+    /\ rpcs' = newRpcs \cup UNION {ns[n].outbox : n \in T}
+    /\ orph' = (IF Orphans THEN newOrph \o Abandoned(node, ns1, T) ELSE newOrph)
+    /\ gh' = GhostStep(gh, node, ns1, e1, T)
+    /\ ev' = e1
     /\ hist' = IF KeepHist THEN Append(hist, e @@ [rf |-> rfc]) ELSE hist
-    /\ LET pend == (\E n \in Node : HasActions(ns1[n].cfgL.nodes)) \/ ctr.cfgReqs < MaxCfgReqs
+    /\ LET pend == ctr.cfgReqs < MaxCfgReqs \/ (\E n \in Node : HasActions(ns1[n].cfgL.nodes))
        IN /\ ordc' \in (IF pend THEN AllOrds ELSE {<< >>})
           /\ rfc' \in (IF pend THEN RoundFastSet ELSE {TRUE})
 
@@ -676,12 +704,14 @@ AppendReq(i, j) ==
     /\ UNCHANGED ctr
 
 \* a request of an abandoned connection / dead leader reaches the follower late
-OrphanReq(o) ==
-    /\ Orphans /\ o \in orph
-    /\ IF ~Up(o.to)
-       THEN Commit(node, rpcs, orph \ {o}, [kind |-> "appendReq", i |-> o.from, j |-> o.to, lost |-> TRUE, orphan |-> TRUE])
+DropAt(q, k) == SubSeq(q, 1, k - 1) \o SubSeq(q, k + 1, Len(q))
+OrphanReq(k) ==
+    /\ Orphans /\ k \in 1..Len(orph)
+    /\ LET o == orph[k] IN
+       IF ~Up(o.to)
+       THEN Commit(node, rpcs, DropAt(orph, k), [kind |-> "appendReq", i |-> o.from, j |-> o.to, lost |-> TRUE, orphan |-> TRUE])
        ELSE LET h == HandleAppend(o.to, o.req)
-            IN Commit([node EXCEPT ![o.to] = h.s], rpcs, orph \ {o},
+            IN Commit([node EXCEPT ![o.to] = h.s], rpcs, DropAt(orph, k),
                       [kind |-> "appendReq", i |-> o.from, j |-> o.to, orphan |-> TRUE, result |-> h.result, respTerm |-> h.respTerm, respLast |-> h.respLast,
                        req |-> [term |-> o.req.term, prev |-> o.req.prev, prevTerm |-> o.req.prevTerm, n |-> Len(o.req.ents), commit |-> o.req.commit]])
     /\ UNCHANGED ctr
@@ -731,9 +761,9 @@ AppendResp(i, j) ==
 ReplFail(i, j) ==
     /\ LiveRepl(i, j) /\ Repl(node[i], j).up
     /\ LET s == node[i]
-           left == {[from |-> i, to |-> j, req |-> Repl(s, j).reqs[k]] : k \in 1..Len(Repl(s, j).reqs)}
+           left == ReqsOf(s, i, j)
        IN Commit([node EXCEPT ![i] = Post(MaybeLdrUpdates(ReplFailed(s, j)))], rpcs,
-                 IF Orphans THEN orph \cup left ELSE orph,
+                 IF Orphans THEN orph \o left ELSE orph,
                  [kind |-> "replFail", i |-> i, j |-> j])
     /\ UNCHANGED ctr
 
@@ -806,14 +836,14 @@ Crash(n) ==
     /\ node[n].up /\ ctr.crashes < MaxCrash
     /\ LET s == node[n]
            left == IF s.ldr.on
-                   THEN UNION {{[from |-> n, to |-> j, req |-> s.ldr.repl[j].reqs[k]] : k \in 1..Len(s.ldr.repl[j].reqs)} : j \in DOMAIN s.ldr.repl}
-                   ELSE {}
+                   THEN Concat([j \in DOMAIN s.ldr.repl |-> ReqsOf(s, n, j)], SetToSeq(DOMAIN s.ldr.repl))
+                   ELSE << >>
            \* connections whose server side was n are dead: their unhandled requests are gone
            ns1 == [m \in Node |-> IF m # n /\ node[m].ldr.on /\ n \in DOMAIN node[m].ldr.repl
                                   THEN [node[m] EXCEPT !.ldr.repl[n].reqs = << >>] ELSE node[m]]
        IN Commit([ns1 EXCEPT ![n] = Crashed(s)],
                  {m \in rpcs : ~(m.from = n)},
-                 {o \in (IF Orphans THEN orph \cup left ELSE orph) : o.to # n},
+                 SelectSeq(IF Orphans THEN orph \o left ELSE orph, LAMBDA o : o.to # n),
                  [kind |-> "crash", n |-> n])
     /\ ctr' = [ctr EXCEPT !.crashes = @ + 1]
 
@@ -841,7 +871,7 @@ Restart(n) ==
 InitVal == [node |-> [n \in Node |-> InitNode(n)], ctr |-> [cmds |-> 0, crashes |-> 0, elections |-> 0, cfgReqs |-> 0]]
 Init ==
     /\ node = InitVal.node
-    /\ rpcs = {} /\ orph = {}
+    /\ rpcs = {} /\ orph = << >>
     /\ gh = GhostInit(Node)
     /\ ctr = InitVal.ctr
     /\ ev = [kind |-> "init"]
@@ -850,7 +880,7 @@ Init ==
 \* back to the initial state (trace validation: a new recorded run starts)
 Reset ==
     /\ node' = InitVal.node
-    /\ rpcs' = {} /\ orph' = {}
+    /\ rpcs' = {} /\ orph' = << >>
     /\ gh' = GhostInit(Node)
     /\ ctr' = InitVal.ctr
     /\ ev' = [kind |-> "init"]
@@ -863,7 +893,7 @@ Next ==
     \/ \E m \in rpcs : RpcReq(m) \/ RpcResp(m)
     \/ \E n, p \in Node : Disconnected(n, p)
     \/ \E i, j \in Node : ReplSend(i, j) \/ AppendReq(i, j) \/ AppendResp(i, j) \/ ReplFail(i, j) \/ ReplPoll(i, j)
-    \/ \E o \in orph : OrphanReq(o)
+    \/ \E k \in 1..Len(orph) : OrphanReq(k)
 
 Spec == Init /\ [][Next]_vars
 
@@ -876,6 +906,8 @@ Inv_C04 == C04_LogMatching(node) /\ C04_LeaderAppendOnly(gh)
 Inv_C05 == C05_OneVotePerTerm(gh) /\ C05_TermMonotone(gh) /\ C05_GrantDurable(gh)
 Inv_C06 == C06_MajorityDurable(gh)
 Inv_C15 == C15_NoSelfInflictedDeath(node)
+Inv_C08 == C08_OneVoterDelta(node) /\ C08_ConfigOnlyWhenSafe(gh)
+Inv_C11 == C11_OnlyVotersCampaign(gh) /\ C11_OnlyVotersLead(gh) /\ C11_PromoteAfterRound(gh) /\ C11_StopOnlyWhenRemoved(gh) /\ C11_DemotedLeaderStepsDown(node)
 Inv_C17a == C17_LeaderStickiness(gh)
 Inv_C19 == C19_Ordered(node) /\ C19_LatestIsNewest(node) /\ C19_Monotone(gh)
 
